@@ -35,6 +35,15 @@ class Library:
     def err(self, v):
         return self.I.mk([1, v], 'enum')
 
+    def payload(self, o, dv, i=0):
+        """field i of variant dv of an enum value in either representation"""
+        if o.tag == 'symenum':
+            f = o[1].get(dv)
+            if f is None:
+                raise Unsupported('symbolic enum lacks variant %r' % dv)
+            return f[i]
+        return o[1 + i]
+
     def deref(self, p):
         if type(p) is Ptr:
             return p.c[p.k]
@@ -514,7 +523,7 @@ class Library:
             ty = None
             if ops and ops[1] is not None:
                 ty = I.operand_ty(fr, ops[1])
-            return I.merge(T.eq(64, disc, want), o[1], d, ty)
+            return I.merge(T.eq(64, disc, want), self.payload(o, want), d, ty)
 
         @reg(r'^Option::<.*>::unwrap_or_else::', 'Option::unwrap_or_else')
         def _unwrap_or_else(fr, name, args, ops):
@@ -525,7 +534,14 @@ class Library:
                     return o[1]
                 return I.call_closure(fr, f, [])
             d = I.call_closure(fr, f, [])
-            return I.merge(T.eq(64, disc, 1), o[1], d, None)
+            ty = None
+            m_ = re.match(r'^Option::<(.*?)>::unwrap_or_else', name)
+            if m_:
+                try:
+                    ty = parse_type(m_.group(1))
+                except Exception:
+                    ty = None
+            return I.merge(T.eq(64, disc, 1), self.payload(o, 1), d, ty)
 
         @reg(r'^Option::<.*>::unwrap$|^Option::<.*>::expect$', 'Option::unwrap')
         def _opt_unwrap(fr, name, args, ops):
@@ -575,9 +591,22 @@ class Library:
             o, f = args
             want = 1 if name.startswith('Option') else 0
             if type(o[0]) is not int:
-                raise Unsupported('map of symbolic Option/Result')
+                if o.tag != 'symenum':
+                    raise Unsupported('map of Option/Result with symbolic discriminant and shared payload')
+                # case split on the discriminant: the closure runs under the path condition "is `want`"
+                vm = dict(o[1])
+                if want in vm:
+                    I.pc.append(T.eq(64, o[0], want))
+                    try:
+                        r = self.apply_ctor_or_fn(fr, f, [vm[want][0]])
+                    finally:
+                        I.pc.pop()
+                    if r is DEAD:
+                        raise Unsupported('closure diverges under map of a symbolic Result')
+                    vm[want] = I.mk([r])
+                return I.mk([o[0], vm], 'symenum')
             if o[0] == want:
-                r = I.call_closure(fr, f, [o[1]])
+                r = self.apply_ctor_or_fn(fr, f, [o[1]])
                 if r is DEAD:
                     return DEAD
                 return I.mk([want, r], 'enum')
